@@ -57,6 +57,7 @@ PROOFS = [
     Proof('ticket_spinlock', 'mutex.c', 'h_ticket', kind='L', min_obligations=3),
 ]
 NATIVES = []
+AUX_VIOLATION = True    # no native oracle: a failing loop-rule obligation is reported (no-failing-input-found), see DESIGN §4
 TRUSTED = ['cbmc 6.11.0', 'lowering rules of specs/C01/spec.py']
 NOT_DECIDED = ['mutual exclusion of the photon mutex across sleeping waiters as a whole-history property',
                'a timeout or interrupt racing with the hand-off (the -1 paths may coincide with a hand-off; only "no own CAS succeeded" is proved)',
